@@ -336,5 +336,28 @@ Proof.
   apply Z.mod_divide; [lia|exact D].
 Qed.
 
+(** trial division up to the square root *)
+Definition no_small_divisor (p : Z) (r : nat) : bool :=
+  forallb (fun d => negb (p mod (Z.of_nat d) =? 0)%Z) (seq 2 (r - 1)).
+
+Lemma prime_by_trial_sqrt p r :
+  (1 < p)%Z -> (p < (Z.of_nat r + 1) * (Z.of_nat r + 1))%Z -> no_small_divisor p r = true -> prime p.
+Proof.
+  intros H1 Hr H. apply prime_alt. split; [exact H1|].
+  unfold no_small_divisor in H. rewrite forallb_forall in H.
+  assert (Small : forall d, (1 < d <= Z.of_nat r)%Z -> ~ (d | p)%Z).
+  { intros d Hd D. specialize (H (Z.to_nat d)). rewrite Z2Nat.id in H by lia.
+    assert (Hin : In (Z.to_nat d) (seq 2 (r - 1))) by (apply in_seq; lia).
+    specialize (H Hin). apply negb_true_iff, Z.eqb_neq in H. apply H.
+    apply Z.mod_divide; [lia|exact D]. }
+  intros k Hk D. destruct D as [q Hq].
+  assert (Hq1 : (1 < q < p)%Z) by nia.
+  destruct (Z_le_gt_dec k (Z.of_nat r)) as [Hs|Hb].
+  - apply (Small k); [lia|]. exists q. exact Hq.
+  - destruct (Z_le_gt_dec q (Z.of_nat r)) as [Hs2|Hb2].
+    + apply (Small q); [lia|]. exists k. lia.
+    + nia.
+Qed.
+
 Lemma prime_65537 : prime 65537.
-Proof. apply prime_by_trial; [lia|vm_compute; reflexivity]. Qed.
+Proof. apply (prime_by_trial_sqrt 65537 256); [lia|lia|vm_compute; reflexivity]. Qed.
